@@ -907,7 +907,7 @@ class _SerialPool:
     def __exit__(self, *a):
         return False
 
-    def starmap(self, func, it):
+    def starmap(self, func, it, chunksize=None):
         return [func(*args) for args in it]
 
 
@@ -987,7 +987,7 @@ def run_format_files(mods, wd: Path, case, real_pool=False) -> dict:
     fake_format_file.__name__ = "format_file"
 
     class TracingPool(_SerialPool):
-        def starmap(self, func, it):
+        def starmap(self, func, it, chunksize=None):
             args = list(it)
             passes.append(sorted(fid_of[str(a[0])] for a in args))
             return [func(*a) for a in args]
